@@ -76,12 +76,13 @@ func engineHandles(data *config.PoliciesData, method, url string) bool {
 	return found && len(policy.Remedies) > 0
 }
 
-// (1) request URL with a trailing slash, (2) host parameter, (2b) host wildcard
+// (1) request URL with a trailing slash, (2) host parameter, (2b) host wildcard, (2c) empty path-parameter segment
 func TestProbeExpressionVsEngine(t *testing.T) {
 	for _, c := range []struct{ pattern, url string }{
 		{"api.example.com/orders", "api.example.com/orders/"},
 		{"{sub}.example.com/orders", "eu.example.com/orders"},
 		{"api.example.*", "api.example.org/orders"},
+		{"api.example.com/users/{id}/orders", "api.example.com/users//orders"}, // (2c) an empty segment in the place of a path parameter
 	} {
 		data := probePolicies(t, c.pattern)
 		req := config.BuildHAProxyEndpointsRequest(&data.Config)
